@@ -346,9 +346,29 @@ class Machine:
 			return res
 		if k == 'attr':
 			ov = self.expr(e[1], env, guard)
+			if ov[0] == 'obj' and e[2] not in ov[1][1] and self.lang == 'py':
+				# a property: python reads it like a field
+				try:
+					owner_p, _ = self.lookup_method(ov[1][0], e[2])
+				except Unsupported:
+					owner_p = None
+				if owner_p is not None and e[2] in self.classes_def[owner_p].get('props', ()):
+					value, _ = self.invoke_method(ov, e[2], [], guard, via_self=e[1] == ('var', 'self'))
+					if value is None:
+						raise Unsupported('property without value')
+					return value
 			if ov[0] != 'obj' or e[2] not in ov[1][1]:
 				raise Unsupported(f'attribute {e[2]}')
 			return ov[1][1][e[2]]
+		if k == 'scall' or (k == 'mcall' and e[1][0] == 'var' and e[1][1] in self.classes_def and e[1][1] not in env):
+			cls, mname, margs = (e[1], e[2], e[3]) if k == 'scall' else (e[1][1], e[2], e[3])
+			owner, (params, body, rtype) = self.lookup_method(cls, mname)
+			if mname not in self.classes_def[owner].get('static', ()):
+				raise Unsupported('call of a non-static method through the class')
+			value = self.run_static(cls, owner, params, body, rtype, [self.expr(a, env, guard) for a in margs], guard)
+			if value is None:
+				raise Unsupported('static method without value')
+			return value
 		if k == 'mcall':
 			ov = self.expr(e[1], env, guard)
 			if ov[0] != 'obj':
@@ -449,6 +469,33 @@ class Machine:
 			after = o2 if after is None else self.merge(cond, o2, after)
 		return value, (after if after is not None else obj)
 
+	def run_static(self, cls: str, owner: str, params: list, body: list, rtype, args: list, guard):
+		"""a class method: python binds `cls` to the class the call went through"""
+		env = {}
+		for i, (pn, pt, pd) in enumerate(params):
+			if i < len(args):
+				env[pn] = self.convert(args[i], pt if self.lang == 'cpp' else None)
+			else:
+				raise Unsupported('missing argument')
+		self.depth += 1
+		if self.depth > 6:
+			raise Unsupported('call depth')
+		self.cur_class.append(owner)
+		self.cls_binding = getattr(self, 'cls_binding', []) + [cls]
+		try:
+			outs = self.block(body, env, {pn: pt for pn, pt, _ in params}, guard)
+		finally:
+			self.cur_class.pop()
+			self.cls_binding = self.cls_binding[:-1]
+			self.depth -= 1
+		value = None
+		for cond, kind, v, _ in outs:
+			if kind == 'raise':
+				self.callee_raises.append(cond)
+			elif kind == 'return' and v is not None:
+				value = v if value is None else self.merge(cond, v, value)
+		return value
+
 	def invoke_method(self, obj, name: str, args: list, guard, static: str | None = None, via_self: bool = False):
 		cls = obj[1][0]
 		owner, (params, body, rtype) = self.lookup_method(static or cls, name)
@@ -502,6 +549,8 @@ class Machine:
 		return ('obj', (cls, after[1][1]))
 
 	def call(self, name: str, args: list, guard):
+		if name == 'cls' and getattr(self, 'cls_binding', None):
+			return self.construct(self.cls_binding[-1], args, guard)
 		if name in self.classes_def:
 			return self.construct(name, args, guard)
 		b = self.builtin(name, args, guard)
